@@ -1225,8 +1225,22 @@ func (w *_structAssembler) AssembleKey() datamodel.NodeAssembler {
 		cfg:        w.cfg,
 		schemaType: schemaTypeString,
 		val:        reflect.New(goTypeString).Elem(),
+		// A repeated field is reported when its key is supplied.
+		finish: func() error { return w.checkRepeatedField(w.curKey.val.String()) },
 	}
 	return &w.curKey
+}
+
+// checkRepeatedField answers ErrRepeatedMapKey if the named field has been assembled already.
+func (w *_structAssembler) checkRepeatedField(name string) error {
+	if w.schemaType.Field(name) == nil {
+		return nil // not a field at all; AssembleValue reports that
+	}
+	ftyp, ok := w.val.Type().FieldByName(fieldNameFromSchema(name))
+	if ok && len(ftyp.Index) == 1 && w.doneFields[ftyp.Index[0]] {
+		return datamodel.ErrRepeatedMapKey{Key: basicnode.NewString(name)}
+	}
+	return nil
 }
 
 func (w *_structAssembler) AssembleValue() datamodel.NodeAssembler {
@@ -1346,6 +1360,13 @@ func (w *_mapAssembler) AssembleKey() datamodel.NodeAssembler {
 		cfg:        w.cfg,
 		schemaType: w.schemaType.KeyType(),
 		val:        reflect.New(w.valuesVal.Type().Key()).Elem(),
+		// A repeated key is reported when the key is supplied (when it is finished, for a complex key).
+		finish: func() error {
+			if w.valuesVal.MapIndex(w.curKey.val).IsValid() {
+				return datamodel.ErrRepeatedMapKey{Key: &_node{cfg: w.cfg, schemaType: w.schemaType.KeyType(), val: w.curKey.val}}
+			}
+			return nil
+		},
 	}
 	return &w.curKey
 }
